@@ -520,7 +520,7 @@ func rangedBuiltinMapFields(c *Ctx, tn *types.TypeName, fields []string) []strin
 // Keys that stand for a list of values are injective.
 func c10InjectiveKeys(c *Ctx, r *Report) {
 	r.Rule("R10.6", "grouping and schema keys are injective: a string that stands for a list of a record's keys or values — the result of the Mlrmap …Joined accessors, or a strings.Join that is compared, stored as state or used as a map key in the writers and verbs — is not built by putting a constant separator between the raw elements (('x,y','z') and ('x','y,z') would be the same key); the accessors length-prefix each element")
-	r.Rule("R10.6c", "one key, one way of writing: where a …Joined accessor hands each element to a helper together with an element count (which decides whether elements are length-prefixed), that count is the same for every element of the key — a constant, a parameter, or a pure function of values computed outside the loop")
+	r.Rule("R10.6c", "one key, one way of writing: where a …Joined accessor hands each element to a helper together with an element count, or a flag computed from one (which decides whether elements are length-prefixed), that count or flag is the same for every element of the key — a constant, a parameter, or a pure function of values computed outside the loop")
 	defer func() { r.Floor("R10.6c", "element counts passed to key-writing helpers in loops", r.CountRule("R10.6c"), 4) }()
 	n := 0
 	for _, fn := range c.ModuleFunctions() {
@@ -985,7 +985,8 @@ func c10JoinCountInvariant(c *Ctx, r *Report, fn *ssa.Function) {
 				continue
 			}
 			for ai, a := range call.Call.Args {
-				if !isIntegerType(a.Type()) {
+				// the argument that decides how an element is written: a count, or a flag computed from one
+				if bt, isB := a.Type().Underlying().(*types.Basic); !isIntegerType(a.Type()) && !(isB && bt.Info()&types.IsBoolean != 0) {
 					continue
 				}
 				k++
